@@ -414,7 +414,7 @@ PAIRS = [
     dict(a="state::tick_array::TickArrayType::is_min_tick_array", b=PTA + "TickArray::is_min_tick_array"),
     dict(a="state::tick_array::TickArrayType::is_max_tick_array", b=PTA + "TickArray::is_max_tick_array"),
     dict(a="state::tick_array::TickArrayType::tick_offset", b=PTA + "TickArray::tick_offset"),
-    dict(a="state::tick_array::get_offset", b=PTA + "get_offset"),
+    dict(a="state::tick_array::get_offset", b=PTA + "get_offset", semantic="floor_div"),
     dict(a="state::tick_array::TickArraysMut::<'a>::load", b=PTA + "loader::TickArraysMut::<'a>::load"),
     dict(a="state::tick_array::TickArraysMut::<'a>::deref_mut", b=PTA + "loader::TickArraysMut::<'a>::deref_mut"),
     dict(a="state::position::validate_tick_range_for_whirlpool", b=MP + "validate_tick_range_for_whirlpool"),
@@ -543,7 +543,18 @@ def _same_inside_growth_table(a, b):
     return len(mine) >= 18 and all(mine)
 
 
-SEMANTIC = {"search_range": _same_search_range, "inside_growth": _same_inside_growth_table}
+def _same_floor_div(a, b):
+    """Both sides return floor(x / y) of the same x and y (hand-written quotient-and-remainder form or div_euclid by a positive divisor)."""
+    from rules.ranges import floor_div_form
+    fa, _ = floor_div_form(a)
+    fb, _ = floor_div_form(b)
+    if fa is None or fb is None:
+        return False
+    n = S.Norm()
+    return [n.s(x) for x in fa] == [n.s(x) for x in fb]
+
+
+SEMANTIC = {"search_range": _same_search_range, "inside_growth": _same_inside_growth_table, "floor_div": _same_floor_div}
 
 
 def compare_pair(run, rule, a_path, b_path, keys=ALL, subs_b=(), exempt=(), subs_a=(), norm_a=None, norm_b=None, semantic=None):
@@ -575,6 +586,42 @@ def compare_pair(run, rule, a_path, b_path, keys=ALL, subs_b=(), exempt=(), subs
             if not d2:
                 sa, sb, d = sa2, sb2, d2
                 break
+    if d:
+        # one side passes a projection of another argument down (`f(position, .., position.tick_lower_index)`) where the other lets
+        # the callee read it: compared with such parameters replaced by the projection every caller passes, and such arguments left
+        # out of the call texts. Only when the two sides' signatures (or those of a callee pair) really differ in length.
+        def arities(side):
+            out = {}
+            for x in side:
+                nm = x.split("(", 1)[0]
+                depth, n, cur = 0, 0, x[len(nm) + 1:-1]
+                n = 1 if cur else 0
+                for ch in cur:
+                    depth += ch in "([{"
+                    depth -= ch in ")]}"
+                    n += (ch == "," and depth == 0)
+                out.setdefault(nm, set()).add(n)
+            return out
+        only = {k: (oa, ob) for k, oa, ob in d}
+        ca, cb = (arities(only["calls"][0]), arities(only["calls"][1])) if "calls" in only else ({}, {})
+        differ = a.argc != b.argc or any(nm in cb and ca[nm] != cb[nm] for nm in ca)
+        if differ:
+            na3 = S.Norm(**dict(norm_a or {}))
+            nb3 = S.Norm(**norm_b)
+            pa_, pb_ = S.agreed_caller_args(facts, a, na3), S.agreed_caller_args(facts, b, nb3)
+            pn_a, pn_b = set(a.param_names()), {nb3.arg_map.get(x, x) for x in b.param_names()}
+            for n_, txt in pa_.items():
+                if n_ not in pn_b:
+                    na3.arg_map[n_] = txt
+            for n_, txt in pb_.items():
+                if nb3.arg_map.get(n_, n_) not in pn_a:
+                    nb3.arg_map[n_] = txt
+            na3.drop_projection_args = nb3.drop_projection_args = lambda p_: p_ in facts.fns
+            sa3 = _norm_returns(_apply(S.summary(a, na3), list(subs_a)))
+            sb3 = _norm_returns(_apply(S.summary(b, nb3), list(subs_b)))
+            d3 = S.diff(sa3, sb3, keys, exempt=list(exempt))
+            if not d3:
+                sa, sb, d = sa3, sb3, d3
     if d and (_has_loop(a) or _has_loop(b)):
         # loops are compared by their recurrences: loop-carried locals stay variables, their definitions are compared as a set
         sa2 = _norm_returns(_apply(S.summary(a, na, cut="loop"), list(subs_a)))
